@@ -35,6 +35,24 @@ def resolve_event_type(P, cname):
     return v
 
 
+def collected_paths_problems(apps, has_dest, has_src) -> list[str]:
+    """Both event paths are collected for matching: dest under its presence test, src when non-empty, each once."""
+    out = []
+    got = [(a.extra.get("args") or [""])[0] for a in apps]
+    for which, decided in (("dest", has_dest), ("src", has_src)):
+        present = any(f"event.{which}_path" in g for g in got)
+        if decided is None and not present:
+            out.append(f"the event's {which}_path is never collected for matching")
+        elif decided is not None and present != bool(decided):
+            out.append(f"the event's {which}_path is collected on the wrong branch of its presence test")
+    if len(apps) > 2:
+        out.append(f"{len(apps)} paths collected for one event")
+    for g in got:
+        if not re.fullmatch(r"os\.fsdecode\(event\.(src|dest)_path\)", g):
+            out.append(f"collected path `{g}` is not fsdecode of an event path")
+    return out
+
+
 def run(ctx) -> None:
     P = ctx.P
     RT = ctx.rule("C15/type-exhaustive", "every concrete event class has a non-empty event_type for which FileSystemEventHandler defines on_<type>; every on_* callback corresponds to a class", floor=15)
@@ -183,18 +201,9 @@ def run(ctx) -> None:
         apps = [e for e in calls if e.extra.get("func") == f"{plist}.append"]
         has_dest = c.get("hasattr(event, 'dest_path')")
         has_src = c.get("event.src_path")
-        got = [(a.extra.get("args") or [""])[0] for a in apps]
-        for which, decided in (("dest", has_dest), ("src", has_src)):
-            present = any(f"event.{which}_path" in g for g in got)
-            if decided is None and not present:
-                okd = False
-                msgs.append(f"the event's {which}_path is never collected for matching")
-            elif decided is not None and present != bool(decided):
-                okd = False
-                msgs.append(f"the event's {which}_path is collected on the wrong branch of its presence test")
-        if len(apps) > 2:
+        for m_ in collected_paths_problems(apps, has_dest, has_src):
             okd = False
-            msgs.append(f"{len(apps)} paths collected for one event")
+            msgs.append(m_)
         for a in apps:
             if not re.fullmatch(r"os\.fsdecode\(event\.(src|dest)_path\)", (a.extra.get("args") or [""])[0]):
                 okd = False
@@ -211,6 +220,15 @@ def run(ctx) -> None:
         sup = [e for e in p.evs if e.kind == "call" and e.extra.get("func") in ("super().dispatch", "FileSystemEventHandler.dispatch")]
         ign_dir = c.get("self.ignore_directories") is True and c.get("event.is_directory") is True
         anys = [(a, v) for a, v in c.items() if a.startswith("any(")]
+        if not ign_dir:
+            rcalls = [e for e in p.evs if e.kind == "call"]
+            # the list the regexes are matched against: the iterable named in the any(...) tests
+            m_ = re.search(r" for \w+ in (\w+)\)+$", anys[0][0]) if anys else None
+            plist = m_.group(1) if m_ else "paths"
+            rapps = [e for e in rcalls if e.extra.get("func") == f"{plist}.append"]
+            for prob in collected_paths_problems(rapps, c.get("hasattr(event, 'dest_path')"), c.get("event.src_path")):
+                okr = False
+                msgs.append(prob)
         ign_atom = [(a, v) for a, v in anys if "self.ignore_regexes" in a]
         inc_atom = [(a, v) for a, v in anys if "self.regexes" in a]
         if ign_dir:
@@ -384,6 +402,8 @@ VARIANTS = [
     dict(name="B default include only when empty list", expect="fire", rule="C15/option-routing", edits=[(PT, 'included = set(["*"] if included_patterns is None else included_patterns)', 'included = set(included_patterns or ["*"])')]),
     dict(name="B conflict check dropped", expect="fire", rule="C15/option-routing", edits=[(PT, "    if common_patterns:\n        error = f\"conflicting patterns `{common_patterns}` included and excluded\"\n        raise ValueError(error)\n", "")]),
     dict(name="B src path not collected", expect="fire", rule="C15/option-routing", edits=[(EV, "        if event.src_path:\n            paths.append(os.fsdecode(event.src_path))\n\n        if match_any_paths(", "        if match_any_paths(")]),
+    dict(name="B regex handler does not collect the source path", expect="fire", rule="C15/option-routing", edits=[(EV, "        if event.src_path:\n            paths.append(os.fsdecode(event.src_path))\n\n        if any(r.match(p) for r in self.ignore_regexes for p in paths):", "        if any(r.match(p) for r in self.ignore_regexes for p in paths):")]),
+    dict(name="B regex handler collects dest only when absent", expect="fire", rule="C15/option-routing", edits=[(EV, "        if hasattr(event, \"dest_path\"):\n            paths.append(os.fsdecode(event.dest_path))\n        if event.src_path:\n            paths.append(os.fsdecode(event.src_path))\n\n        if any(r.match(p) for r in self.ignore_regexes", "        if not hasattr(event, \"dest_path\"):\n            paths.append(os.fsdecode(event.dest_path))\n        if event.src_path:\n            paths.append(os.fsdecode(event.src_path))\n\n        if any(r.match(p) for r in self.ignore_regexes")]),
     dict(name="B case flag inverted in regex ctor", expect="fire", rule="C15/option-routing", edits=[(EV, "        if case_sensitive:\n            self._regexes = [re.compile(r) for r in regexes]", "        if not case_sensitive:\n            self._regexes = [re.compile(r) for r in regexes]")]),
     dict(name="B logging override skips super", expect="fire", rule="C15/dispatch-shape", edits=[(EV, "        super().on_closed(event)\n\n        self.logger.info(\"Closed modified file: %s\", event.src_path)", "        self.logger.info(\"Closed modified file: %s\", event.src_path)")]),
     dict(name="E f-string -> concatenation", expect="silent", edits=[(EV, 'getattr(self, f"on_{event.event_type}")(event)', 'getattr(self, "on_" + event.event_type)(event)')]),
